@@ -190,6 +190,9 @@ int verif_case(const uint8_t *tape, size_t tlen, Info *info) {
     case 0: {  // register
       bool query = t.chance(48), con = t.pick({1, 2}) != 0;
       std::vector<uint8_t> token = {(uint8_t)(0x10 * (o + 1) + r), (uint8_t)(t.range(0, 2) + (query ? 0x80 : 0))};
+      // the zero-length token is a token like any other: one of the variants of (resource 0, no query) uses it
+      if (r == 0 && !query && token[1] == 2) token.clear();
+      if (token.empty()) info->label("registration-with-empty-token");
       send_get(o, r, token, query, 0, con);
       regs++;
       snprintf(hb, sizeof hb, "register(o%u,r%u,tok=%s,%s,%s)", o, r, hex(token, 4).c_str(), query ? "q" : "-", con ? "CON" : "NON");
@@ -210,6 +213,8 @@ int verif_case(const uint8_t *tape, size_t tlen, Info *info) {
     case 4: {  // cancel with Observe=1
       bool query = t.chance(48);
       std::vector<uint8_t> token = {(uint8_t)(0x10 * (o + 1) + r), (uint8_t)(t.range(0, 2) + (query ? 0x80 : 0))};
+      // the zero-length token is a token like any other: one of the variants of (resource 0, no query) uses it
+      if (r == 0 && !query && token[1] == 2) token.clear();
       send_get(o, r, token, query, 1, t.pick({1, 3}) != 0);
       snprintf(hb, sizeof hb, "cancel(o%u,r%u,tok=%s)", o, r, hex(token, 4).c_str());
       break;
